@@ -365,3 +365,17 @@ Theorem C02_gen_centre_coordinates_are_float_midpoints : forall x y h alt res (m
   GeneratedF.getCenterPointOnVoxelOffset_centerAlt x y h alt res mx mn = ((mx + mn) / 2)%float.
 Proof. exact gen_centre_coordinates_are_float_midpoints. Qed.
 Print Assumptions C02_gen_centre_coordinates_are_float_midpoints.
+
+(* ---- the row index of getVertexOnVoxelOffset as regenerated (local latIndexFloat after the clamp) is the clamped row of the model: rows
+   outside 0 .. 2^h-1 (IDs outside the grid) are moved to the nearest row of the grid, rows of the grid are kept ---- *)
+Theorem C02_gen_row_is_the_clamped_row : forall x y h alt res,
+  GeneratedF.getVertexOnVoxelOffset_latIndexFloat x y h alt res = GenEqFVertex.clamp_row y h.
+Proof. exact gen_row_is_the_clamped_row. Qed.
+Print Assumptions C02_gen_row_is_the_clamped_row.
+Example C02_gen_row_clamp_evaluated :
+  map (fun y => GeneratedF.getVertexOnVoxelOffset_latIndexFloat 0 y 3 0%float 1%float) [-5; -1; 0; 1; 6; 7; 8; 100]
+    = [0; 0; 0; 1; 6; 7; 7; 7]%float /\
+  GeneratedF.getVertexOnVoxelOffset_latIndexFloat 0 (2 ^ 35 - 1) 35 0%float 1%float = of_Z (2 ^ 35 - 1) /\
+  GeneratedF.getVertexOnVoxelOffset_latIndexFloat 0 (2 ^ 35) 35 0%float 1%float = of_Z (2 ^ 35 - 1) /\
+  GeneratedF.getVertexOnVoxelOffset_latIndexFloat 0 5 0 0%float 1%float = 0%float.
+Proof. exact gen_row_clamp_evaluated. Qed.
